@@ -4,7 +4,7 @@
 From Coq Require Import Extraction ExtrOcamlBasic.
 From Coq Require Import List NArith.
 From JS Require Import Model.Base Model.Shape Model.Sem Model.Subset Model.Merger Model.Infer Model.Api Model.Repr Model.Cost Model.Gen.
-From JS Require Import Model.Lexer Model.Parser Model.Walk Model.TextApi Model.JsonRef Model.ValueCost Model.TextClasses.
+From JS Require Import Model.Lexer Model.Parser Model.Walk Model.TextApi Model.JsonRef Model.ValueCost Model.TextClasses Model.Depth.
 Extraction Language OCaml.
 Set Extraction AccessOpaque.
 Extraction "Model.ml"
@@ -27,4 +27,6 @@ Extraction "Model.ml"
   from_str_m from_sources_m is_superset_m is_superset_checked_m accepts
   ref_json ref_accepts jdepth dup_consistent has_bare_cr render_text
   vcalls jnodes value_cost_excess
-  ndiags diag_dropped cr_rejected.
+  ndiags diag_dropped cr_rejected
+  (* recursion depth twins (Model/Depth.v) *)
+  parse_depth walk_depth value_depth.
